@@ -16,6 +16,7 @@ THEOREMS = [
     "imager_ctor_inv", "imager_setter_inv", "imager_history_inv", "imager_history_inv_from_ctor",
     "imager_ctor_legacy_inv_iff", "imager_ctor_legacy_refuted", "imager_legacy_setters_exact",
     "imager_setter_float_refuted", "imager_pixels_square", "imager_locate_pixel",
+    "imager_mesh_feeds_transform", "fit_covers_points_then_mass", "point_mass_lands_in_located_pixel",
 ]
 RULE = ("seeded histories: constructor (ranges/pixel from {exact multiples, non-multiples, inexact quotients "
         "0.3/0.1 0.7/0.1 1/3, k*ps for random doubles ps, random doubles, int arguments, large offsets}) followed by "
